@@ -91,3 +91,17 @@ Theorem C04_accepts_conn : Statements.C04_accepts_conn.
 Proof. exact ProofsAccept.accepts_conn. Qed.
 Print Assumptions C04_accepts_conn.
 
+
+(* ---- the source functions themselves: Gallina translations regenerated from /repo on every run (Gen/Translated.v)
+   equal the model functions the theorems above are about, for every input, and never panic ---- *)
+From Trans Require Spec Equiv.
+
+(* message.readLPBytes, as the source has it now, never panics (result is never None) and equals the model *)
+Theorem C04_readLPBytes_never_panics : Trans.Spec.T_readLPBytes.
+Proof. exact Trans.Equiv.readLPBytes_equiv. Qed.
+Print Assumptions C04_readLPBytes_never_panics.
+
+(* topics.nextTopicLevel never panics on any byte string *)
+Theorem C04_nextTopicLevel_never_panics : Trans.Spec.T_nextTopicLevel.
+Proof. exact Trans.Equiv.nextTopicLevel_equiv. Qed.
+Print Assumptions C04_nextTopicLevel_never_panics.
